@@ -4,6 +4,10 @@
 #include <stdio.h>
 #include <string.h>
 
+#include <stdlib.h>
+
+#include <memory>
+#include <new>
 #include <string>
 #include <vector>
 
@@ -145,6 +149,24 @@ struct DoneFlag {
     return v;
   }
 };
+
+// Heap allocation that honours over-alignment (C++14 `new` does not: dispenso's lock and ring types are
+// alignas(64)).  Objects under test live on the heap in workloads that enable the store-buffer fault.
+template <typename T>
+struct HeapDel {
+  void operator()(T* p) const {
+    p->~T();
+    free(p);
+  }
+};
+template <typename T, typename... A>
+std::unique_ptr<T, HeapDel<T>> heapNew(A&&... a) {
+  void* m = nullptr;
+  size_t al = alignof(T) < sizeof(void*) ? sizeof(void*) : alignof(T);
+  if (posix_memalign(&m, al, sizeof(T)) != 0)
+    abort();
+  return std::unique_ptr<T, HeapDel<T>>(::new (m) T(static_cast<A&&>(a)...));
+}
 
 // Objects that must outlive the workload function (detached work may still touch them) are
 // allocated here and stay reachable from a global list, so a leak checker does not blame them.
